@@ -237,6 +237,7 @@ path:                 /* at this point, p must point to an absolute path */
   if (!len)
     goto end;
 
+  p = q;
   if (*q == '/') {
     p = ++q;
     --len;
